@@ -26,6 +26,7 @@ import (
 	"go.dedis.ch/kyber/v3/util/key"
 	"go.dedis.ch/onet/v3/log"
 	"go.dedis.ch/onet/v3/network"
+	"onetverif/harness/fix"
 	"onetverif/harness/h"
 )
 
@@ -481,13 +482,18 @@ func c08gen(c *h.Ctx, yield func(*h.Case)) {
 		rw.f(&d)
 		return d, true
 	}
-	// corpus: the witnesses, always first
-	for _, role := range []string{"dial", "accept"} {
-		d := honest(role, "ed", "12", "v")
-		d.op, d.via = "a", "relay"
-		emit("corpus-relay", d)
-	}
-	{
+	// corpus: the witnesses, always first (corpus/C08/*.ops; built-in copies if the files are gone)
+	if cc := fix.LoadCorpus("C08"); len(cc) > 0 {
+		for _, cs := range cc {
+			c.Count("class=" + cs.Class)
+			yield(cs)
+		}
+	} else {
+		for _, role := range []string{"dial", "accept"} {
+			d := honest(role, "ed", "12", "v")
+			d.op, d.via = "a", "relay"
+			emit("corpus-relay", d)
+		}
 		d := honest("dial", "ed", "12", "v")
 		d.op, d.cn, d.sig = "a", "new:a", "a/cur/new:a"
 		emit("corpus-uri-vs-cn", d)
